@@ -103,7 +103,13 @@ class MatchingParameter:
             if isinstance(parameter_value, float):
                 # allow a slight tolerance if the expected value is
                 # floating point
-                return abs(float(self.expected_value) - parameter_value) < 1e-8
+                try:
+                    expected_float = float(self.expected_value)
+                except ValueError:
+                    # the expected value is not a number, i.e., it
+                    # cannot be equal to a floating point value
+                    return False
+                return abs(expected_float - parameter_value) < 1e-8
             elif isinstance(parameter_value, BytesTypes):
                 return parameter_value.hex().upper() == self.expected_value.upper()
             elif isinstance(parameter_value, DiagnosticTroubleCode):
